@@ -10,6 +10,22 @@ CLAIMED = {
  "C01": ("proptest-generated SQL statements (choice-tape grammar generator) over generated small tables, differential against an independent reference SQL evaluator (refsql, itself cross-checked against SQLite)",
          "Generated statements over the full grammar of the property (projection, WHERE, all join kinds, GROUP BY/HAVING, DISTINCT, ORDER BY/LIMIT/OFFSET with tie-group validity, set operations, derived tables, CTEs, correlated/uncorrelated subqueries, CASE/COALESCE/IN/BETWEEN/LIKE) on tables with NULLs and duplicates and random batch splits; engine answer must equal the reference multiset / ORDER BY tie groups, an engine error is allowed. Two generated checks: a core grammar measured free of open findings, and the full grammar whose disagreements are attributed to an open finding only through precise signature predicates (kf_sql.rs). Exploration: thousands of cases per run, ~100+ distinct NULL/duplicate-sensitive multi-clause statements.",
          "Trusts refsql (validated against SQLite on ~15k generated statements with zero semantic disagreement) and the harness comparison rules (DESIGN 3.4). Statements producing -0.0/NaN, integer overflow or LIMIT inside sub-selects are excluded by construction.", "5 C01"),
+ "C11": ("proptest over synthetic footer-only and real Parquet inventories: validity predicate over the SplitSet + metamorphic invariances (file order, mount path) + digest sensitivity",
+         "Generated tables of 1-12 files x 0-10 row groups (rows 0..1e7, bytes 0..2^40 via footer-only files written with ParquetMetaDataWriter, plus real files), 1..64 nodes: splits must cover each non-empty row group exactly once in contiguous ranges, bytes/rows must sum exactly, order must be canonical; permuting the file list or moving the files must not change sequence or digest; changing one attribute must change the digest. Exploration.",
+         "Footer-only files stand in for huge row groups; the engine's footer cache is keyed by path so every case uses fresh paths.", "5 C11"),
+ "C12": ("exhaustive enumeration of small instances (brute-force OPT) + proptest-generated larger instances (branch-and-bound / planted OPT): partition, accounting, determinism and the LPT bound in exact integer arithmetic",
+         "All multisets of <=9 sizes over 0..7 and all sequences of <=6 sizes over 0..4 for 1..4 nodes are enumerated completely (173k instances) and 6000 generated instances up to 200 splits / 64 nodes follow; every split owned once, totals recomputed, two calls and a permuted-insertion twin identical, 3*N*max <= (4N-1)*OPT in u128. Exhaustive for the stated small bound, exploration beyond.",
+         "OPT for generated instances comes from an independent branch-and-bound (<=14 splits) or from planted equal-sum bins.", "5 C12"),
+ "C13": ("proptest over real Parquet tables, arbitrary split-to-node assignments and hand-cut sub-row-group ranges: union of shard scans vs the generated rows (own 3VL filter evaluator)",
+         "Generated tables (1-6 files, tiny row groups, unique id), splits from enumerate or hand-recut, arbitrary or LPT assignment to 1..8 nodes, projections and pushed filters: every shard reports parquet_files()==None, the union of shard scans is the table exactly once, filtered unions contain every matching row, and SELECT/COUNT/SUM through shard_context add up. Exploration.",
+         "OR filters are restricted to non-null columns.", "5 C13"),
+ "C14": ("proptest over initiator/worker table pairs that are identical or differ in exactly one split-relevant attribute, plus protocol faults",
+         "For generated pairs (identical copy under another mount; renamed file; other row-group size; one row more/fewer; encoding change that only moves total_byte_size; dropped file; foreign digest; out-of-range shard index) execute_fragment must run and reassemble the table when the footers agree and must fail otherwise. Exploration; variants that leave the footers unchanged are discarded.",
+         "Expected outcome is computed from the check's own footer reads.", "5 C14"),
+ "C29": ("generated / damaged / hostile / harvested SQL executed in crash-isolating worker sub-processes with a panic hook and a two-stage watchdog",
+         "Every statement (grammar-generated, token-damaged, deeply nested or oversized, and all 800 SQL strings harvested from the repository plus TPC-H Q1-22, plain and damaged) runs in a long-lived worker process against generated tables plus TPC-H SF 0.001; the oracle is: an Ok or Err reply - never a panic (reported with message and location), never a dead worker (signal), never silence (10 s, then 90 s alone in a fresh process). Exploration; the whole harvested corpus is replayed exhaustively on every run.",
+         "Hangs are judged by wall clock only after a 90 s solo confirmation on tiny tables; panics that only exist in overflow-checked builds are still panics of the build the repository tests.", "5 C29"),
+
  "C36": ("proptest over 187 function signatures: engine evaluation over columns, re-sliced batches, literals and mixed paths, compared with independent Rust references, algebraic laws / known-answer vectors, and NULL-propagation rules",
          "Each generated case evaluates one scalar function on 1-16 argument tuples four ways (column batch, re-sliced batches, all-literal, mixed) and demands agreement with an independent reference where a repo document settles the value, with laws (round-trips, idempotence, digest known answers) elsewhere, NULL-in-NULL-out for strict arguments, and equality of all evaluation paths. Exploration; path-only functions get the weaker oracle (stated in DESIGN).",
          "References are taken from the repository's function tests / Trino plan docs; regions no document settles are compared for path agreement only.", "5 C36"),
